@@ -685,6 +685,25 @@ fn mark_consuming(o: Id) {
     }
 }
 
+/// The active log backend (user code inside the `log` facade): called for every record the
+/// library emits. It drops one Weak handle the program holds to an object that is already
+/// dead - the smallest-numbered one - the way a registry prunes dead entries while it logs.
+pub fn log_backend_hook() {
+    if !crate::alloc::in_sut() || std::thread::panicking() {
+        return;
+    }
+    har(|| {
+        let pick = m(|m| m.pw.iter().find(|(_, &(o, e))| !m.weak_alive(o, e)).map(|(&w, _)| w));
+        let Some(wid) = pick else { return };
+        let Some(wk) = w(|w| w.ws.remove(&wid)) else { return };
+        m(|m| {
+            m.pw.remove(&wid);
+        });
+        st(St::f_log_backend_drops_weak, 1);
+        weak_call(move || drop(wk));
+    })
+}
+
 /// Execute one call. Returns false if it was a no-op (operand missing).
 pub fn exec(op: &Op, dying: Option<&Node>) -> bool {
     let did = exec_inner(op, dying);
